@@ -1,5 +1,5 @@
 import RawPanelVerif.Base.Wire
-import RawPanelVerif.Base.Trim
+import RawPanelVerif.Base.Bytes
 import RawPanelVerif.Gen.Consts
 import RawPanelVerif.Model.Gfx
 import RawPanelVerif.Spec.GfxSpec
@@ -125,7 +125,9 @@ def modelBatch (pinned : Bool) (tbl : List (Bytes × List Msg)) (lines : List By
   s!"B {ms.length}" ++ String.join (ms.map showMsg) ++ showFinals ms
 
 def showState (s : RState) : String :=
-  let buf := match s.buf with | none => "n" | some b => toString b.length
+  let buf := match s.buf with
+    | none => "n"
+    | some b => toString b.length ++ ":" ++ ",".intercalate (b.map hexOfBytes)
   s!"{s.count} {s.max} {hexOfBytes s.list} {hexOfBytes s.ty} {buf}"
 
 /-- group the expanded messages per line -/
@@ -172,14 +174,14 @@ def prefixClause (p : String) (o : Option String) : Option String := o.map (p ++
 def safetyAll (lines : List Bytes) (r : Result) : Option String :=
   firstSome [
     fun _ => prefixClause "B:" (Spec.Gfx.checkSafety lines (delivsOf r.b false)),
-    fun _ => prefixClause "S:" (Spec.Gfx.checkSafety (lines.map Trim.trimSpace) (delivsOf r.s true)),
-    fun _ => prefixClause "J:" (Spec.Gfx.checkSafety (lines.map Trim.trimSpace) (delivsOf r.j true))]
+    fun _ => prefixClause "S:" (Spec.Gfx.checkSafety (lines.map Bytes.trimSpace) (delivsOf r.s true)),
+    fun _ => prefixClause "J:" (Spec.Gfx.checkSafety (lines.map Bytes.trimSpace) (delivsOf r.j true))]
 
 def cleanAll (g : Spec.Gfx.Sent) (ids : List Nat) (lines : List Bytes) (r : Result) : Option String :=
   firstSome [
     fun _ => prefixClause "B:" (Spec.Gfx.checkClean g ids lines (delivsOf r.b false)),
-    fun _ => prefixClause "S:" (Spec.Gfx.checkClean g ids (lines.map Trim.trimSpace) (delivsOf r.s true)),
-    fun _ => prefixClause "J:" (Spec.Gfx.checkClean g ids (lines.map Trim.trimSpace) (delivsOf r.j true))]
+    fun _ => prefixClause "S:" (Spec.Gfx.checkClean g ids (lines.map Bytes.trimSpace) (delivsOf r.s true)),
+    fun _ => prefixClause "J:" (Spec.Gfx.checkClean g ids (lines.map Bytes.trimSpace) (delivsOf r.j true))]
 
 def countG (sec : Sec) : Nat := (delivsOf sec false).length
 
@@ -192,7 +194,7 @@ def answer (eq : Bool) (h : Option String) (model : String) (tags : List String)
 (`Spec.Gfx.parseLine`), raw and trimmed -/
 def readingsAgree (lines : List Bytes) : Bool :=
   lines.all (fun l => decide (readLine l = Spec.Gfx.parseLine l) &&
-    decide (readLine (Trim.trimSpace l) = Spec.Gfx.parseLine (Trim.trimSpace l)))
+    decide (readLine (Bytes.trimSpace l) = Spec.Gfx.parseLine (Bytes.trimSpace l)))
 
 /-- the history part shared by `gfx.hist` and `gfx.rt` -/
 def runHistory (st : St) (lines : List Bytes) (implToks : List String) : Option (Result × Bool × String) := do
@@ -243,7 +245,7 @@ def step (st : St) (cmd : String) (args : List String) (impl : String) : St × S
       match runHistory st lines implToks with
       | none => (st, s!"NE H0:panic-or-unreadable-output")
       | some (r, eq, model) =>
-        let dom := Spec.Gfx.inDomain lines && Spec.Gfx.inDomain (lines.map Trim.trimSpace)
+        let dom := Spec.Gfx.inDomain lines && Spec.Gfx.inDomain (lines.map Bytes.trimSpace)
         let h := if dom then safetyAll lines r else none
         (st, answer eq h model [if dom then "dom" else "ood", s!"deliv{countG r.b}/{countG r.s}/{countG r.j}"])
     | _, _ => (st, "ERR bad-record")
